@@ -84,6 +84,10 @@ def slot_of_attrs(a):
     return None if single else (-1 if a['seq'] is None else a['seq'], a['chan'])
 
 
+_RUNS = []
+_RUNS_OFF = []
+
+
 def check_sequence(ctx, seq_items, injected, label):
     """seq_items: schedule items (dicts with 'hex'); injected: list of (position, bytes) of bad lines to splice in."""
     rep, model = ctx.rep, ctx.model
@@ -107,12 +111,18 @@ def check_sequence(ctx, seq_items, injected, label):
                 bad_raws.add(c[2])
                 if c[1] is not None:
                     tainted.add(c[1])
+    # a failure caused by what EARLIER reader / queue objects left behind (class-level state in the library) only reproduces
+    # after those earlier runs: the replay refers to the runs made before it in this process (shared list + position)
     for tbq in (False, True):
         for name, loop in READERS:
             rep.case((label, name, tbq, tuple(full)), kind=f'{label}:{name}:{"tbq" if tbq else "plain"}')
+            earlier = {'runs': _RUNS, 'upto': len(_RUNS)}
             res = sc.run_frontend(name, full, tbq)
+            if not _RUNS_OFF:
+                _RUNS.append([name, tbq, [l.hex() for l in full]])
+                _RUNS.append([name, tbq, [l.hex() for l in clean]])
             replay = {'entry': name, 'tbq': tbq, 'lines': [l.hex() for l in full], 'clean': [l.hex() for l in clean],
-                      'tainted': [list(t) for t in tainted], 'bad_raws': sorted(bad_raws)}
+                      'tainted': [list(t) for t in tainted], 'bad_raws': sorted(bad_raws), 'earlier': earlier}
             if res['exc'] is not None:
                 rep.violation({'entry': name, 'component': 'reader-loop', 'kind': f'escaped-exception:{res["exc"]}',
                                'tbq': tbq},
@@ -269,6 +279,9 @@ def replay(ctx, data):
         except Exception as e:   # noqa: BLE001
             return f"{data['entry']} with a preprocessor raised {type(e).__name__}"
         return None if got == data.get('want', got) else f"{data['entry']} with a preprocessor delivered {got} messages"
+    e = data.get('earlier') or {}
+    for name, tbq, hexes in e.get('runs', [])[:e.get('upto', 0)]:      # the reader runs made before it in the recorded run
+        sc.run_frontend(name, [bytes.fromhex(h) for h in hexes], tbq)
     res = sc.run_frontend(data['entry'], lines, data.get('tbq', False))
     if res['exc'] is not None:
         return f"{data['entry']} raised {res['exc']}"
